@@ -12,6 +12,8 @@ import (
 	"os"
 	"path/filepath"
 	"runtime"
+	"runtime/debug"
+	"runtime/pprof"
 	"sort"
 	"strconv"
 	"strings"
@@ -38,6 +40,18 @@ func main() {
 	os.Setenv("GOTOOLCHAIN", "local")
 	os.Setenv("GOFLAGS", "-mod=mod")
 	os.Setenv("GOPROXY", "off")
+	debug.SetGCPercent(400)
+	if pf := os.Getenv("VERIF_PROF"); pf != "" {
+		f, _ := os.Create(pf)
+		pprof.StartCPUProfile(f)
+		defer pprof.StopCPUProfile()
+		go func() {
+			time.Sleep(60 * time.Second)
+			pprof.StopCPUProfile()
+			f.Close()
+			os.Exit(0)
+		}()
+	}
 	if len(os.Args) < 2 {
 		fmt.Fprintln(os.Stderr, "usage: vcheck run|replay|selftest ...")
 		os.Exit(2)
@@ -153,6 +167,16 @@ func cmdRun(args []string) int {
 	if cd.QueryMs > 0 {
 		cfg.QueryMs = cd.QueryMs
 	}
+	if fx := os.Getenv("VERIF_FIX"); fx != "" {
+		cfg.Fixed = map[string]uint64{}
+		for _, kv := range strings.Split(fx, ",") {
+			if i := strings.LastIndex(kv, "="); i > 0 {
+				v, _ := strconv.ParseUint(kv[i+1:], 10, 64)
+				cfg.Fixed[kv[:i]] = v
+			}
+		}
+	}
+	cfg.NoMerge = os.Getenv("VERIF_NOMERGE") != ""
 	budget := cd.QuickBudget
 	if w.Thorough {
 		budget = cd.ThoroughBudget
@@ -231,8 +255,8 @@ func cmdRun(args []string) int {
 	if *verbose || inconclusive {
 		printSummary(total, by, vac)
 	}
-	fmt.Printf("property=%s tier=%s harnesses=%d paths=%d done=%d obligations=%d queries=%d solver=%.1fs fallback(cvc5 bv-as-int)=%d/%.1fs wall=%.1fs\n",
-		id, *tier, len(fns), total.Paths, total.PathsDone, countDischarged(total), total.Queries, total.SolverTime.Seconds(), total.Fallbacks, total.FallbackTime.Seconds(), wall.Seconds())
+	fmt.Printf("property=%s tier=%s harnesses=%d paths=%d done=%d obligations=%d queries=%d solver=%.1fs fallback(cvc5 bv-as-int)=%d/%.1fs exec=%.1fs merges=%d wall=%.1fs\n",
+		id, *tier, len(fns), total.Paths, total.PathsDone, countDischarged(total), total.Queries, total.SolverTime.Seconds(), total.Fallbacks, total.FallbackTime.Seconds(), total.PathWall.Seconds(), total.Merges, wall.Seconds())
 	if confirmed > 0 {
 		return 1
 	}
@@ -281,6 +305,9 @@ func printSummary(total *gosym.Stats, by map[string]*gosym.Stats, vac []string) 
 	for _, k := range os_ {
 		o := total.Obligations[k]
 		fmt.Printf("  obligation %-50s discharged=%d trivial=%d violated=%d unknown=%d\n", k, o.Discharged, o.Trivial, o.Violated, o.Unknown)
+	}
+	for k, n := range total.MergeAborts {
+		fmt.Printf("  merge abort x%d: %s\n", n, k)
 	}
 	for k, n := range total.Unsupported {
 		fmt.Printf("  UNSUPPORTED x%d: %s\n", n, k)
@@ -395,7 +422,7 @@ func confirmReplay(w *gosym.World, cd *CheckDef, v *gosym.Violation, path string
 		}
 	}
 	if !engineOK {
-		return false, fmt.Sprintf("concrete re-execution: no violation (paths=%d unsupported=%v)", st.Paths, st.Unsupported)
+		return false, fmt.Sprintf("concrete re-execution: no violation (paths=%d unsupported=%v samples=%v)", st.Paths, st.Unsupported, st.Samples)
 	}
 	how := "concrete re-execution of the real SSA reproduces"
 	if os.Getenv("VERIF_NO_NATIVE") == "" {
